@@ -214,10 +214,13 @@ def rewrittenIdsLoop (m : List (Nat × Rewrite)) : Nat → List Nat → List Nat
 def rewrittenIds (m : List (Nat × Rewrite)) (ids : List Nat) : List Nat :=
   rewrittenIdsLoop m (ids.length + (m.map (·.2.newParentIds.length)).sum + 1) ids [] []
 
-/-- `find_descendants_for_rebase`: visible descendants of the keys that are not keys -/
+/-- `find_descendants_for_rebase`: `commits(keys).descendants() ~ commits(keys)`.  The revset engine
+resolves `descendants()` against the visible heads *or the commits referenced in the expression*
+(`resolve_visible_heads_or_referenced`), so hidden commits between two hidden keys are included. -/
 def toVisit (r : Repo) : List Nat :=
   (List.range r.size).filter fun d =>
-    r.isVisible d && !r.keys.contains d && r.keys.any fun k => r.isAnc k d
+    (r.isVisible d || r.keys.any fun k => r.isAnc d k) &&
+      !r.keys.contains d && r.keys.any fun k => r.isAnc k d
 
 /-- dependencies of `d` in `order_commits_for_rebase`: parents still to be rebased, and rewrite
 targets of parents still to be rebased -/
